@@ -105,7 +105,7 @@ def task(W, payload):
             if getattr(S, "last_cut", 10**9) >= len(py["outputs"]):
                 try:
                     direct_oracle(prog, S.I, py, out, payload)
-                except Exception as e:
+                except BaseException as e:
                     bump(out, "oracle_error:" + type(e).__name__)
     if payload["index"] == 0:
         out["sample"] = {"program": prog["build"], "params": prog["params"]}
